@@ -45,6 +45,12 @@ func c18(c *Check) {
 		{Label: "SetClientConsensusState", Callee: "keeper.(Keeper).SetClientConsensusState", N: 1, Args: map[int]string{1: "$1", 2: "$2", 3: "{LH}", 4: "$4"}, Under: []string{errNil(up)}},
 	}})
 
+	c.Rule("C18/proofs-verify-once-the-delay-passed", "frozen tables (shared with C07 / C08): the packet verifiers of every client type reject on the delay exactly while the delay has not passed (strict comparison for the block delay, processed time + period for tendermint), so that a proof at the installed height verifies as soon as it has", 12)
+	isVerifier := func(fn string) bool {
+		return strings.HasSuffix(fn, "ClientState.VerifyPacketCommitment") || strings.HasSuffix(fn, "ClientState.VerifyPacketAcknowledgement") || strings.HasSuffix(fn, "types.verifyDelayPeriodPassed")
+	}
+	c.FrozenFiltered("C07", "C18/proofs-verify-once-the-delay-passed", isVerifier)
+	c.FrozenFiltered("C08", "C18/proofs-verify-once-the-delay-passed", isVerifier)
 	c.Rule("C18/consensus-state-skipped-only-for-tss", "create / upgrade / toggle store the installed consensus state under exactly the conditions under which they store the client state, with one exception: CreateClient skips it when the consensus state's type is TSS — and under no other condition (a client installed at height 0 still gets its consensus state)", 3)
 	for _, f := range []string{"CreateClient", "UpgradeClient", "ToggleClient"} {
 		fn := c.F(clKeeper + "Keeper." + f)
